@@ -6,7 +6,7 @@ import upscripts as U
 import e2escripts as E
 
 L1_QUICK = ["E2ECall_q.cfg", "E2ECall_q2.cfg", "E2ECall_q3.cfg", "E2ECall_q4.cfg"]
-L1_THOROUGH = ["E2ECall_t.cfg", "E2ECall_t2.cfg", "E2ECall_t3.cfg"]
+L1_THOROUGH = ["E2ECall_t.cfg", "E2ECall_t2.cfg", "E2ECall_t3.cfg", "E2ECall_t4.cfg"]
 # design-level sensitivity: the invariants are not vacuous (a constant call id / a dispatcher that keeps the waiter entry break them)
 L1_SENS = [("E2ECall_sens_constid.cfg", "NegativeAckOnlyThatCaller"), ("E2ECall_sens_nodelete.cfg", "DeliverNonBlocking")]
 
@@ -27,11 +27,11 @@ def run():
         "payloads are derived from process and tag: a caller is tied to its UpstreamCall at the broker by the payload checksum",
         "inbox overflow (more than 1024 undelivered calls / replies are discarded by design) is outside the judged obligations",
         "an API call may legally return by context/close while its ack is on the way: 'ack not reported' is judged only for acks "
-        "written >= 300 ms before the return or still unreported at the settle point (150 ms without any event) before Close",
+        "written >= 400 ms before the return or still unreported at the settle point before Close (step 'settle': 250 ms without any event other than keep-alive, restarted when the driver itself oversleeps; inconclusive if no such window)",
         "quick L1 configurations run the registration steps eagerly (ACTION_CONSTRAINT EagerLocal, sound for fresh ids); "
         "E2ECall_t2.cfg and the sensitivity configurations explore every interleaving",
     ]
-    # ---- L1: exhaustive design check, concurrently with the replay (separate JVMs)
+    # ---- L1: exhaustive design check, concurrently with the script generation (separate JVMs)
     l1_err = []
 
     def l1_all():
@@ -52,10 +52,10 @@ def run():
     scs = E.core_family("C16")
     fams = [
         # name, sample size quick/thorough, simulate runs quick/thorough, scenario kwargs, cfg
-        ("sim3", 40, 400, 300, 3000, {}, dict(callers=("P1", "P2", "P3"), per=2, acks=5, dup=1, neg=1, unk=1, rep=4, dupr=1, unkr=1, inc=2, maxrecv=3)),
-        ("sim8", 30, 300, 200, 2000, {}, dict(callers=tuple("P%d" % i for i in range(1, 9)), per=1, acks=9, dup=1, neg=2, unk=1, rep=7, dupr=1, unkr=1, inc=1, maxrecv=2)),
-        ("expire", 10, 100, 150, 1500, {}, dict(callers=("P1", "P2", "P3"), kinds=("call", "callWait"), acks=4, dup=1, neg=1, unk=0, rep=3, dupr=0, unkr=0, inc=0, cr=(), maxrecv=1, expire=1)),
-        ("reconnect", 15, 150, 200, 2000, {"conn": E.RECONNECT_CONN}, dict(callers=("P1", "P2", "P3"), acks=4, dup=1, neg=1, unk=0, rep=3, dupr=0, unkr=1, inc=1, maxrecv=2, faults=1)),
+        ("sim3", 40, 250, 300, 2000, {}, dict(callers=("P1", "P2", "P3"), per=2, acks=5, dup=1, neg=1, unk=1, rep=4, dupr=1, unkr=1, inc=2, maxrecv=3)),
+        ("sim8", 30, 200, 200, 1500, {}, dict(callers=tuple("P%d" % i for i in range(1, 9)), per=1, acks=9, dup=1, neg=2, unk=1, rep=7, dupr=1, unkr=1, inc=1, maxrecv=2)),
+        ("expire", 10, 60, 150, 800, {}, dict(callers=("P1", "P2", "P3"), kinds=("call", "callWait"), acks=4, dup=1, neg=1, unk=0, rep=3, dupr=0, unkr=0, inc=0, cr=(), maxrecv=1, expire=1)),
+        ("reconnect", 15, 100, 200, 1200, {"conn": E.RECONNECT_CONN}, dict(callers=("P1", "P2", "P3"), acks=4, dup=1, neg=1, unk=0, rep=3, dupr=0, unkr=1, inc=1, maxrecv=2, faults=1)),
     ]
     # generator cfgs are written before any TLC run starts (every run copies the spec directory)
     gcfgs = {f[0]: E.write_cfg("E2ECall_gen_%s_%d.cfg" % (f[0], os.getpid()), **f[6]) for f in fams}
@@ -63,9 +63,11 @@ def run():
     th.start()
     try:
         scs += generated(ctx, fams, gcfgs, quick)
-        trace = ctx.run_scenarios(scs, "c16", par=16)
-        verdicts, _ = ctx.validate(trace, "MonC16")
+        # the replay is not run concurrently with the model checker: judgements at the settle point need a machine that
+        # schedules the library's goroutines in time
         th.join()
+        trace = ctx.run_scenarios(scs, "c16", par=8)
+        verdicts, _ = ctx.validate(trace, "MonC16")
     finally:
         th.join()
         for g in gcfgs.values():
